@@ -112,6 +112,35 @@ theorem hit_or_miss (s : State) (set : List Nat) :
     | false => right; intro v' pn' h; cases h; exact hc
   | _ => right; intro v' pn' h; cases h
 
+/-- how `latest_value` evolves -/
+theorem step_latest (s : State) (op : Op) :
+    (step s op).1.latest = (match op with
+      | .update v => if v < s.latest then s.latest else v
+      | _ => s.latest) := by
+  cases op with
+  | update v =>
+    by_cases hv : v < s.latest
+    · rw [step_update_lt s v hv]; simp [hv]
+    · rw [step_update_ge s v hv]
+      simp only [hv, if_false, requestDeliveryIfNecessary]
+      split <;> rfl
+  | transmit c w =>
+    by_cases ht : s.delivery.tryTransmit c = true ∧ w.isSome = true
+    · obtain ⟨ht, hw⟩ := ht
+      cases w with
+      | none => cases hw
+      | some pn => rw [step_transmit_yes s c pn ht]
+    · rw [step_transmit_no s c w ht]
+  | ack set =>
+    rcases hit_or_miss s set with ⟨v, pn, hd, hc⟩ | hm
+    · rw [step_ack_hit s set v pn hd hc]
+    · rw [step_ack_miss s set hm]
+  | loss set =>
+    rcases hit_or_miss s set with ⟨v, pn, hd, hc⟩ | hm
+    · rw [step_loss_hit s set v pn hd hc]
+    · rw [step_loss_miss s set hm]
+  | stop => rfl
+
 theorem inv_step (s : State) (op : Op) (h : Inv s) : Inv (step s op).1 := by
   cases op with
   | update v =>
